@@ -297,6 +297,19 @@ class TypeQualifierBase:
     _intrinsic(width.fget)
 
 
+def _check_declaration_value(target, value):
+    # A declaration with a run-time vector as initial value is an assignment:
+    # check it like the setters do (trial assignment on a scratch value),
+    # otherwise only the backend sees the pair and reinterprets
+    # Signed <-> Unsigned of equal width.
+    if (
+        isinstance(value, TypeQualifierBase)
+        and issubclass(target.type, BitVector)
+        and issubclass(type(_decay(value)), BitVector)
+    ):
+        target.type()._assign(_decay(value))
+
+
 class TypeQualifier(TypeQualifierBase, metaclass=_TypeQualifier):
 
     #
@@ -865,6 +878,7 @@ class TypeQualifier(TypeQualifierBase, metaclass=_TypeQualifier):
 
         if value is None or is_primitive(value) and value._is_uninitialized():
             return intr_op._IntrinsicDeclaration(self, None)
+        _check_declaration_value(self, value)
         return intr_op._IntrinsicDeclaration(self, value)
 
     @_intrinsic_replacement(__bool__)
@@ -1389,6 +1403,7 @@ class Signal(TypeQualifier):
 
         if value is None or is_primitive(value) and value._is_uninitialized():
             return intr_op._IntrinsicDeclaration(self, None, delayed_init)
+        _check_declaration_value(self, value)
         return intr_op._IntrinsicDeclaration(self, value, delayed_init)
 
     #
